@@ -31,6 +31,17 @@ func scratch(tag string) string {
 	return d
 }
 
+// fakeUnmodelled returns a read-only git command the model git was asked for
+// but does not implement ("" if none): such a run is no verdict.
+func fakeUnmodelled(fs *cli.FakeSession) string {
+	for _, inv := range fs.Log() {
+		if inv.Kind == modelgit.KUnexpected && modelgit.LooksReadOnly(inv.Args) {
+			return fmt.Sprint(inv.Args)
+		}
+	}
+	return ""
+}
+
 // sizerArgs renders a scenario's root selection as git-sizer options.
 func sizerArgs(sc *gen.Scenario) []string {
 	var args []string
@@ -260,7 +271,9 @@ func conform(sh *explore.Shard, prop string, owned []string, sc *gen.Scenario) {
 			res3 := cli.Run(dir, cli.FakeGitDir, fs.Env(), 60*time.Second, args...)
 			sh.C.Validated++
 			sh.C.Add("cli_fakegit_permuted_runs", 1)
-			if res3.Exit != 0 {
+			if u := fakeUnmodelled(fs); u != "" {
+				herr("the model git does not implement the read-only command %s (extend harness/modelgit)", u)
+			} else if res3.Exit != 0 {
 				sh.C.Violate(explore.Violation{Property: prop, Class: "cli-error", Msg: fmt.Sprintf("git-sizer with the model git under a permuted listing failed (exit %d): %s", res3.Exit, res3.Stderr),
 					Case: caseJSON(sh.Index(), map[string]any{"desc": sc.Desc, "args": args}), Detail: sc.Repo.Describe()})
 			} else if n3, _, err := parseV1(res3.Stdout); err == nil {
